@@ -16,6 +16,8 @@ pub fn dispatch(case: &Value) -> Value {
         "lex" => lex(case),
         "observe" => observe(case),
         "yamlval" => crate::obs::yaml_values(case),
+        "stable" => stable(case),
+        "runs" => runs(case),
         m => json!({"ev": "harness-error", "msg": format!("unknown mode {m}")}),
     }
 }
@@ -355,4 +357,133 @@ pub fn yaml_values(case: &Value) -> Value {
         }
     }
     json!({"ev": "yamlval", "values": res, "locs": locs})
+}
+
+
+#[cfg(rva_verif)]
+fn take_sweeps() -> Value {
+    Value::Array(
+        riscv_analysis::verif_hooks::take()
+            .into_iter()
+            .map(|(p, n)| json!({"pass": p, "n": n}))
+            .collect(),
+    )
+}
+#[cfg(not(rva_verif))]
+fn take_sweeps() -> Value {
+    json!([])
+}
+
+/// The observables of a finished Cfg as canonical strings, one per group, so
+/// that the trace specification can say *which* group a pass changed.
+fn parts(cfg: &Cfg, ff: &dyn Fn(Uuid) -> i64) -> Value {
+    let j = cfg_json(cfg, ff);
+    let nodes = j["nodes"].as_array().cloned().unwrap_or_default();
+    let pick = |keys: &[&str]| -> String {
+        let v: Vec<Value> = nodes
+            .iter()
+            .map(|n| {
+                let mut m = Map::new();
+                for k in keys {
+                    m.insert((*k).to_string(), n[*k].clone());
+                }
+                Value::Object(m)
+            })
+            .collect();
+        serde_json::to_string(&v).unwrap_or_default()
+    };
+    let kinds: Vec<Value> = nodes
+        .iter()
+        .map(|n| json!([n["node"]["k"], n["node"]["op"], n["node"]["lab"]]))
+        .collect();
+    // order-insensitive: the order of diagnostics with equal ranges is C10's business
+    let mut lint_lines: Vec<String> = lint_json(&run_lints(cfg), ff)
+        .as_array()
+        .cloned()
+        .unwrap_or_default()
+        .iter()
+        .map(|x| serde_json::to_string(x).unwrap_or_default())
+        .collect();
+    lint_lines.sort();
+    let lints_sorted = lint_lines.join("\n");
+    json!({
+        "n": nodes.len(),
+        "nodes": serde_json::to_string(&kinds).unwrap_or_default(),
+        "edges": pick(&["nexts", "prevs"]),
+        "values": pick(&["rin", "rout", "min", "mout"]),
+        "live": pick(&["live_in", "live_out"]),
+        "udef": pick(&["udef"]),
+        "funcs": serde_json::to_string(&j["funcs"]).unwrap_or_default() + &pick(&["funcs"]),
+        "lints": lints_sorted,
+    })
+}
+
+/// C12: analyse the same parsed program once per history, then apply the
+/// history's extra passes, recording the observables after every step.
+fn stable(case: &Value) -> Value {
+    let (files, base) = files_of(case);
+    let reader = MemReader::new(files);
+    let mut parser = RVParser::new(reader);
+    let (nodes, errors) = parser.parse_from_file(&base, false);
+    let ff = files_fn(&parser.reader);
+    let mut runs = vec![];
+    for h in case["histories"].as_array().cloned().unwrap_or_default() {
+        let hist: Vec<String> = h
+            .as_array()
+            .map(|a| a.iter().map(|x| x.as_str().unwrap_or("").to_string()).collect())
+            .unwrap_or_default();
+        let _ = take_sweeps();
+        match Manager::gen_full_cfg(nodes.clone()) {
+            Ok(mut cfg) => {
+                let sweeps0 = take_sweeps();
+                let first = parts(&cfg, &ff);
+                let mut steps = vec![];
+                for p in &hist {
+                    let r = match p.as_str() {
+                        "A" => AvailableValuePass::run(&mut cfg),
+                        "E" => EcallTerminationPass::run(&mut cfg),
+                        "L" => LivenessPass::run(&mut cfg),
+                        _ => Ok(()),
+                    };
+                    steps.push(json!({"pass": p, "ok": r.is_ok(), "sweeps": take_sweeps(), "parts": parts(&cfg, &ff)}));
+                }
+                runs.push(json!({"hist": hist, "ok": true, "first": first, "sweeps": sweeps0, "steps": steps}));
+            }
+            Err(_) => {
+                runs.push(json!({"hist": hist, "ok": false, "first": {}, "sweeps": [], "steps": []}));
+            }
+        }
+    }
+    json!({"ev": "stable", "nerrors": errors.len(), "runs": runs})
+}
+
+
+/// C10: lint the same files `repeat` times in one process (fresh reader,
+/// fresh UUIDs and hash seeds each time) through the library entry point.
+fn runs(case: &Value) -> Value {
+    let (files, base) = files_of(case);
+    let n = case["repeat"].as_u64().unwrap_or(4) as usize;
+    let mut all = vec![];
+    for _ in 0..n {
+        let reader = MemReader::new(files.clone());
+        let mut p = RVParser::new(reader);
+        let items = p.run(&base);
+        let names: Vec<String> = p.reader.order.iter().map(|(_, n)| n.clone()).collect();
+        let ff = files_fn(&p.reader);
+        let v: Vec<Value> = items
+            .iter()
+            .map(|d| {
+                let mut j = item_json(d, &ff);
+                // file by name: the order in which files were imported is itself part of the output
+                let fi = j["file"].as_i64().unwrap_or(0);
+                j["fname"] = json!(if fi >= 1 { names.get(fi as usize - 1).cloned().unwrap_or_default() } else { String::new() });
+                // kind = title up to the first ':' (the rest names labels / functions / offsets)
+                let kind = d.title.split(':').next().unwrap_or("").to_string();
+                j["kind"] = json!(kind);
+                j
+            })
+            .collect();
+        all.push(Value::Array(v));
+    }
+    json!({"ev": "runs", "runs": all})
 }
